@@ -6,8 +6,11 @@
  * (tok.c, str.c, dlinked_list.c, obj.c) are part of the unit; input and delimiter strings end at the last
  * byte of their objects; no heap write beyond a requested block size (env_split.h canary).
  *
- * The REAL tok.c, str.c, dlinked_list.c and obj.c are executed (rawsrc/ = the unannotated files of the
- * tree under check; B units apply no loop contracts).  Re-bound dispatch macros (object/list methods are
+ * The REAL tok.c, str.c, dlinked_list.c and obj.c are executed, included as "../src/x.c" (= $REPO/include/
+ * ../src/x.c, the unannotated files of the tree under check; B units apply no loop contracts).  The unit has
+ * no `src:` line on purpose: it must not depend on the loop-contract tables of tok.c / str.c being applicable
+ * (a mutant that restructures the loops of spif_tok_eval makes the tok_eval P units undecidable, this unit
+ * still runs and judges the tokens).  Re-bound dispatch macros (object/list methods are
  * called through spif_func_t pointers that cbmc cannot resolve; GUIDE "function pointers"); each is bound
  * to the method the class table holds for the objects that reach it in this TU (tokens are str objects,
  * the token list is a dlinked_list):
@@ -31,7 +34,7 @@
 /*@unit
 name: tok.grammar
 define: VERIF_MAXLEN_Q=3, VERIF_MAXLEN_T=4, VS_OBJS=1024
-src: tok.c, str.c, dlinked_list.c, obj.c
+native_includes: tok.c, str.c, dlinked_list.c, obj.c
 tier: B
 bound: input length <= 3 (quick tier) / <= 4 (thorough tier) over {a,b,space,:,',",\}; delimiter sets NULL, ":", " :"; loops unwound 5 / 6 (token loop 5)
 unwind: 5
@@ -72,10 +75,10 @@ funcs: spif_tok_eval, spif_tok_new_from_ptr, spif_tok_set_sep, spif_str_new_from
 #define SPIF_OBJ_COMP(a, b)        spif_str_comp((spif_str_t) (a), (spif_str_t) (b))
 #define SPIF_OBJ_SHOW(o, b, i)     spif_str_show((spif_str_t) (o), (spif_charptr_t) "", (b), (i))
 
-#include "rawsrc/obj.c"
-#include "rawsrc/str.c"
-#include "rawsrc/dlinked_list.c"
-#include "rawsrc/tok.c"
+#include "../src/obj.c"
+#include "../src/str.c"
+#include "../src/dlinked_list.c"
+#include "../src/tok.c"
 
 static char v_d1[2] = ":";
 static char v_d2[3] = " :";
@@ -83,8 +86,8 @@ unsigned w_delim_kind;
 
 void harness(void)
 {
-    unsigned n, i, k;
-    char *in = vr_input(&n);
+    unsigned i, k;
+    VR_INPUT(in, n);
     char *delim;
     vr_toks_t R;
     spif_tok_t t;
